@@ -610,7 +610,13 @@ sxround_dur_cocl(dt_sexy_t t, struct dt_dtdur_s dur, bool nextp)
 	bool downp = false;
 
 	/* get directions, no dur is a no-op */
-	if (UNLIKELY(!(sdur = dur.dv))) {
+	if (dur.durtyp == DT_DURD) {
+		/* days keep their count in the date part */
+		sdur = dur.d.dv;
+	} else {
+		sdur = dur.dv;
+	}
+	if (UNLIKELY(!sdur)) {
 		return t;
 	} else if (sdur < 0) {
 		downp = true;
@@ -620,6 +626,9 @@ sxround_dur_cocl(dt_sexy_t t, struct dt_dtdur_s dur, bool nextp)
 	}
 
 	switch (dur.durtyp) {
+	case DT_DURD:
+		sdur *= HOURS_PER_DAY;
+		/*@fallthrough@*/
 	case DT_DURH:
 		sdur *= MINS_PER_HOUR;
 		/*@fallthrough@*/
@@ -723,13 +732,21 @@ dt_round(struct dt_dt_s d, struct dt_dtdur_s dur, bool nextp)
 		break;
 	case DT_SEXY:
 	case DT_SEXYTAI:
-		if (UNLIKELY(!dur.cocl)) {
+		switch (dur.cocl ? dur.durtyp : DT_DURUNK) {
+		case DT_DURD:
+		case DT_DURH:
+		case DT_DURM:
+		case DT_DURS:
+			/* just keep it sexy */
+			d.sexy = sxround_dur_cocl(d.sexy, dur, nextp);
+			break;
+		default:
 			error("Error: \
 Epoch date/times have no divisions to round to.");
+			/* no result rather than the unrounded value */
+			d = (struct dt_dt_s){DT_UNK};
 			break;
 		}
-		/* just keep it sexy */
-		d.sexy = sxround_dur_cocl(d.sexy, dur, nextp);
 		break;
 	}
 	return d;
